@@ -79,6 +79,17 @@ func genCreateClass(w *World) sdk.Msg {
 
 var referenceIDs = []string{"", "", "VCS-001", "VCS-002", "ref 3", "R", strings.Repeat("r", 32)}
 
+// referenceID is a pool id or (one draw in eight) a near miss of one: reference ids are free text
+// of up to 32 characters, so "VCS-001 " and "VCS-00" are ids of their own.
+func (w *World) referenceID(label string, pool []string) string {
+	rid := pickOf(w, label, pool)
+	if len(rid) > 0 && len(rid) < 31 && w.chance(label+"?near", 12) {
+		w.Flags["near-miss-reference-id"] = true
+		return w.MutateStr(label+"mut", rid)
+	}
+	return rid
+}
+
 func genCreateProject(w *World) sdk.Msg {
 	cid, cls := w.pickClassID("class")
 	var holder []byte
@@ -88,7 +99,7 @@ func genCreateProject(w *World) sdk.Msg {
 		}
 	}
 	admin := w.roleSigner("admin", holder)
-	rid := pickOf(w, "refid", referenceIDs)
+	rid := w.referenceID("refid", referenceIDs)
 	if w.chance("?badref", 2) {
 		rid = pickOf(w, "badref", []string{strings.Repeat("r", 33), "nul\x00inside"})
 	}
@@ -114,6 +125,8 @@ var originContracts = []string{
 	"0x06012c8cf97bead5deae237070f9587f8e7a266d",
 	"0xdAC17F958D2ee523a2206206994597C13D831ec7",
 	"0x0000000000000000000000000000000000000001",
+	"0x0000000000000000000000000000000000000000",
+	"0xFFfFfFffFFfffFFfFFfFFFFFffFFFffffFfFFFfF",
 }
 
 func (w *World) originTx(label string, needContract bool, ethOnly bool) *basetypes.OriginTx {
@@ -422,6 +435,10 @@ func (w *World) chainName(label string) string {
 		}
 		return n
 	}
+	if len(w.S.BridgeChains) > 0 && w.chance(label+"?near", 40) {
+		w.Flags["near-miss-chain-name"] = true
+		return w.MutateStr(label+"mut", pickOf(w, label+"allowed2", w.S.BridgeChains).ChainName)
+	}
 	return pickOf(w, label, bridgeTargets)
 }
 
@@ -448,7 +465,7 @@ func genBridgeReceive(w *World) sdk.Msg {
 		}
 	}
 	s, e := w.StartEnd("dates")
-	rid := pickOf(w, "refid", referenceIDs[2:])
+	rid := w.referenceID("refid", referenceIDs[2:])
 	return &basetypes.MsgBridgeReceive{
 		Issuer:  w.AddrStr("issuerstr", w.roleSigner("issuer", holder)),
 		ClassId: cid,
